@@ -1,19 +1,48 @@
+import SqlModel.Grouping.MatchSpec
+import SqlModel.Sexp
+import SqlProofs.MatchSpec
+import SqlProofs.Group.SpecShape
 import SqlProofs.GroupNonEmpty
 import SqlProofs.GroupLeaves
 /-!
 # C09 — bracketed and block groups are exactly the properly matched pairs
 
-Until `SqlProofs/MatchSpec.lean` lands (refinement of `_group_matching` to the textbook frame-stack matcher; a complete proof for the
-simplified loop is in proto/Match.lean), the theorems here are the consequences already proved for the real model: `_group_matching`
-keeps the leaves exactly, and every Parenthesis/SquareBrackets/Case/If/For/Begin group it creates has an opener strictly before its closer
-(groups are never empty).  The pairing itself is checked against an independent stack matcher by the oracle on the real code.
+`specMatch` (SqlModel/Grouping/MatchSpec.lean) is the textbook matcher: a fold over a stack of frames — an opener pushes a frame, a closer with
+an open frame pops it into one group `cls (frame ++ [closer])` appended to its parent, an unmatched closer or any other token is appended to the
+top frame, and the frames still open at the end are concatenated in place (unmatched openers stay ungrouped).  `specMatchRec` applies it inside
+every group of another class first (later kinds are matched inside, never across, groups of earlier kinds).
+Theorems: the real loop of `_group_matching` (snapshot iteration, `tidx = idx − offset` index arithmetic, `group_tokens` slicing) computes exactly
+that, for every class, pattern and token list, balanced or not, and never raises; plus the shape of what the matcher builds.
+End to end (later passes keep these groups; only trailing comments are appended) is checked by the oracle against an independent matcher.
 -/
 namespace Sql.C09
 
-/-- `_group_matching` (any class, any token list, balanced or not) neither loses nor reorders a leaf -/
-theorem matching_keeps_leaves : type_of% @groupMatching_leaves_eq := @groupMatching_leaves_eq
-
-/-- after all passes no group — in particular none of the six bracket/block classes — is empty -/
+/-- **refinement**: the loop of `_group_matching` = the textbook stack matcher -/
+theorem matching_loop_is_stack_matcher : type_of% @matchLoop_eq_spec := @matchLoop_eq_spec
+/-- the loop never raises (every `group_tokens` call it makes is in range) -/
+theorem matching_loop_total : type_of% @matchLoop_total := @matchLoop_total
+/-- with the recursion into groups of other classes: equal to the structural recursive matcher; the only failure is running out of recursion depth -/
+theorem group_matching_is_recursive_matcher : type_of% @groupMatching_eq_spec := @groupMatching_eq_spec
+theorem group_matching_total : type_of% @groupMatching_total := @groupMatching_total
+/-- every node the matcher creates has ≥ 2 children, starts with its opening token and ends with its closing token; openers/closers are leaf tokens
+matching `M_OPEN`/`M_CLOSE` -/
+theorem created_groups_shape : type_of% @matchLoop_shape := @matchLoop_shape
+theorem shape_of_new_group : type_of% @Shape.new_spec := @Shape.new_spec
+theorem opener_is_mopen_leaf : type_of% @isOpenTok_leaf := @isOpenTok_leaf
+theorem closer_is_mclose_leaf : type_of% @isCloseTok_leaf := @isCloseTok_leaf
+/-- nothing is lost or reordered, balanced or not -/
+theorem matcher_keeps_leaves : type_of% @specMatch_leaves := @specMatch_leaves
+/-- after all 25 passes no group is empty -/
 theorem bracket_groups_nonempty : type_of% @group_nonempty := @group_nonempty
+
+/-- non-vacuity: `( a ) )` `(` — one matched pair, one unmatched closer, one unmatched opener -/
+example :
+    let o := Node.tok T.Punctuation [40]
+    let c := Node.tok T.Punctuation [41]
+    let a := Node.tok T.Name [97]
+    let isO : Node → Bool := fun k => match k with | .tok _ [40] => true | _ => false
+    let isC : Node → Bool := fun k => match k with | .tok _ [41] => true | _ => false
+    (specMatch isO isC .Parenthesis [o, a, c, c, o]).map Node.sexp
+      = [Node.grp .Parenthesis [o, a, c], c, o].map Node.sexp := by decide
 
 end Sql.C09
